@@ -62,6 +62,13 @@ func c13WholeBody(t *testing.T, s *sim.Scn, o *sim.Outcome) {
 			panic(err)
 		}
 		sn := w.AddNode(sim.NodeCfg{Name: name, Aggregator: agg, BlockTime: bt, DABlockTime: dat})
+		if j := s.Cfg["jitter"]; j > 0 {
+			// slow goroutines: about one in three yields the processor j times at each of its datastore operations
+			sn.Disk.Yield = sim.SpinJitter(j, uint64(s.Cfg["jsalt"]))
+			if idx == 0 {
+				o.Count("fault:disk-scheduling-jitter", 1)
+			}
+		}
 		cfg := config.DefaultConfig
 		cfg.RootDir = sn.Root
 		cfg.ChainID = w.Genesis.ChainID
@@ -391,6 +398,7 @@ func c13WholeGen(r *rand.Rand, tier string) *sim.Scn {
 	s := &sim.Scn{Cfg: map[string]int64{
 		"node": 1, "nfull": r.Int64N(3), "bt": []int64{250, 500, 1000, 2000}[r.IntN(4)], "dat": []int64{1000, 3000, 6000}[r.IntN(3)], "run": run, "stop": r.Int64N(run + 1),
 		"lazy": r.Int64N(2), "maxpending": []int64{0, 0, 2, 5}[r.IntN(4)], "dalat": []int64{0, 5, 50, 300}[r.IntN(4)], "execlat": []int64{0, 0, 20, 400}[r.IntN(4)],
+		"jitter": []int64{0, 0, 0, 400, 4000}[r.IntN(5)], "jsalt": r.Int64N(1 << 30),
 	}}
 	if r.IntN(4) == 0 {
 		s.Cfg["mempoolhang"] = int64(50 + r.IntN(3000))
